@@ -190,6 +190,9 @@ func (g *Grammar) candidates(yield func(*Grammar) bool) {
 // Shrink greedily minimises g while stillFails keeps returning true. budget bounds the number of
 // candidate evaluations.
 func Shrink(g *Grammar, stillFails func(*Grammar) bool, budget int) *Grammar {
+	if g.Static != "" {
+		return g // rendered as hand-written Go types: the IR cannot change without them
+	}
 	cur := g
 	for improved := true; improved && budget > 0; {
 		improved = false
